@@ -87,3 +87,32 @@ class Deadline:
 
     def expired(self):
         return self.left() <= 0
+
+
+import re as _re
+_PANIC_AT = _re.compile(r"panicked at ([^\s]+?):(\d+)(?::\d+)?")
+_HARNESS_AT = _re.compile(r"@ ([^\s]+?):(\d+)\s*$")
+
+
+def norm_path(path):
+    """Stable form of a source path: crate-relative for registry crates, repo-relative for sfs."""
+    m = _re.search(r"/registry/src/[^/]+/(.*)$", path)
+    if m:
+        return m.group(1)
+    m = _re.search(r"/((?:core|cli)/src/.*)$", path)
+    if m:
+        return m.group(1)
+    m = _re.search(r"/(library/.*)$", path)
+    if m:
+        return m.group(1)
+    return path
+
+
+def panic_sig(text):
+    """Normalised '<path>:<line>' of a panic from CLI stderr ('panicked at p:l:c') or a harness record ('msg @ p:l')."""
+    if isinstance(text, bytes):
+        text = text.decode("utf-8", "replace")
+    m = _PANIC_AT.search(text) or _HARNESS_AT.search(text.strip())
+    if not m:
+        return "unknown-site"
+    return "%s:%s" % (norm_path(m.group(1)), m.group(2))
